@@ -5,11 +5,13 @@ from vlib.dsim_common import dsim_env
 from vlib.spdp_common import *
 
 BINS = ["dsim", "spdp"]
-RULE = ("two scenario families on the simulator, hand-written corpus first. A: one observed participant and a stream of FORGED SPDP "
+RULE = ("three scenario families on the simulator, hand-written corpus first (incl. ignore - dispose - late copy of the announcement). A: one observed participant and a stream of FORGED SPDP "
         "announcements (real announcement bytes with patched GUID, domain id - other/absent/equal -, lease 0 ns...100 s; tag via "
         "configuration), ignore_participant and advances biased to the exact expiry instant of a listed participant (-1 ns, 0, +1 ns, "
         "+2 ns, + one worker period). B: 2-4 real participants with mixed domain ids and tags, announcement period 5 s / 2 s / 1000 s, "
         "the next 1-3 announcements of a participant lost, silent death, deletion, ignoring, late joiners, advances around the 100 s lease. "
+        "C: a real participant whose first announcement is held, so that genuine copies with its GUID can be delivered late: random order of "
+        "ignore / delete (dispose) / silence / time with late copies in between and afterwards, a third participant ignoring or not. "
         "After every event every live participant's discovered-participant list is read. Non-trivial: some participant listed somebody "
         "besides itself and some list changed later; distinct by op lines")
 ASSUMPTIONS = ["the simulator delivers with zero latency and fires timers exactly (a zero delay becomes 1 ns), so a silent participant leaves "
